@@ -22,7 +22,7 @@ use std::f64::consts::{PI, TAU};
 // DESIGN.md section 3 / C07; the values used here are half of the largest region in which every
 // calibration run converged.
 const B2_T: f64 = 0.02;
-const B2_R: f64 = 6.0 * PI / 180.0;
+const B2_R: f64 = 3.0 * PI / 180.0;
 const B3_T: f64 = 0.03;
 const B3_R: f64 = 6.0 * PI / 180.0;
 
@@ -39,7 +39,7 @@ pub fn spec() -> Spec {
                out-of-basin cases (up to 60 degrees / 50 %) judged on the honesty clauses only. \
                Non-trivial = an alignment that returned Ok with a non-identity displacement; distinct = hash(reference fingerprint, displacement bits, mode).",
         assumptions: &[
-            "basin: 2D translation <= 2% of size and rotation <= 6 deg; 3D 3% and 6 deg, split between displacement and starting guess",
+            "basin: 2D translation <= 2% of size and rotation <= 3 deg (so that a point 6% of the extent away from a corner cannot change edges); 3D 3% and 6 deg; split between displacement and starting guess",
             "recovery tolerance: 1e-6*size (2D, 3D ToPlane), 1e-4*size (3D ToPoint)",
             "residual recomputation uses the public closest-point queries at exactly the returned transform (3D ToPoint additionally against the harness's brute-force distance)",
             "event-log Jacobian rows are compared with central differences only where the closest element is stable and the residual is away from its kink",
@@ -225,6 +225,11 @@ fn run2(c: &mut Ctx) {
     // (a)
     if in_basin {
         let err = samples.iter().zip(moved.iter()).map(|(p, q)| (t * q - p).norm()).fold(0.0, f64::max);
+        if c.verbose {
+            let comp = t * d;
+            let rms = |t: &Iso2| (residuals2(&curve, t, &moved).iter().map(|x| x * x).sum::<f64>() / moved.len() as f64).sqrt();
+            println!("  returned o displacement: angle {:e} translation {:?}; rms at start {:e}, at the returned transform {:e}, at the true inverse {:e}; {} log events; size {size:e}", comp.rotation.angle(), comp.translation.vector, rms(&g), rms(&t), rms(&d.inverse()), log.len());
+        }
         c.close(api, "in-basin recovers the displacement", class, err / size, 0.0, 1e-6);
     }
     // (b)
